@@ -2,6 +2,7 @@
 import os
 
 import common as C
+import optsdom
 
 
 def build(ctx):
@@ -183,6 +184,7 @@ def run(ctx):
     full_corr(ctx, ctx.scale(540, 6000), ctx.scale(36, 240))
     summ = oracle(ctx, ctx.scale(1500, 20000))
     ctx.add_summary(summ, "JSON round trip oracle")
+    optsdom.run(ctx, "C07")
     s2 = cli(ctx, ctx.scale(30, 240))
     ctx.add_summary(s2, "achcli -reformat")
     if ctx.tier == "thorough":
@@ -190,6 +192,8 @@ def run(ctx):
 
 
 def replay(path):
+    if optsdom.is_case(path):
+        return optsdom.replay(path)
     ok, out = C.build_harness()
     if not ok:
         print(out[-2000:])
